@@ -97,9 +97,32 @@ class LoopMachine(Machine):
             if t[0] not in ('eq', 'ne', 'lt', 'le', 'lnot', 'c'):
                 t = self.cmp(s2, 'ne', t, ZERO)
             if not is_const(t):
+                # a retry loop: the condition hangs on whether the port accepted the last transmit - both answers are followed
+                # (the unrolling then either ends within the state budget or revisits a loop head: see run_concrete)
+                from .terms import atoms_of
+                ats = atoms_of(s2.canon(t))
+                if ats and all(a[0] == 'sym' and str(a[1]).startswith('rc.send_frame.') for a in ats):
+                    a_, b_ = self.branch(s2, Val(cv.ty, t))
+                    if a_ is not None:
+                        out.append((a_, True))
+                    if b_ is not None:
+                        out.append((b_, False))
+                    continue
                 raise Undecided()
             out.append((s2, t[1] != 0))
         return out
+
+    def head_memory(self, st):
+        """Everything a state holds in memory (not its trace): two visits of a loop head with the same memory differ only in
+        what the port answered in between."""
+        sig = []
+        for oid, o in st.objs.items():
+            if o.kind in ('str', 'global') or o.weak:
+                continue
+            sig.append((oid, o.default, repr(sorted(((k, w, st.canon(ct)) for k, (w, ct) in o.cells.items()), key=repr))))
+        # (the n-th transmit's answer is a symbol of its own: which transmit it was is part of the trace, not of the memory)
+        import re as _re
+        return hash(_re.sub(r'rc\.send_frame\.\d+', 'rc.send_frame.*', repr(sorted(sig, key=repr))))
 
     def head_sig(self, st):
         """Abstract signature of a state at the head of an endless loop (`for (;;)` re-evaluation loops - the iterative
@@ -126,6 +149,8 @@ class LoopMachine(Machine):
         exits = []
         first = True
         seen_heads = {}
+        head_mems = {}
+        trace0 = len(st.trace)
         for it in range(MAX_CONCRETE_ITERS + 1):
             if it == MAX_CONCRETE_ITERS:
                 raise Undecided()
@@ -145,6 +170,24 @@ class LoopMachine(Machine):
                 cur = fresh
                 if not cur:
                     break
+            # a loop that repeats a port call until it is accepted: coming back to the head with the very memory of an earlier
+            # visit - only the port's answers in between differ - means that a port which keeps refusing keeps the loop going
+            # for ever (no counter advanced, no deadline read)
+            kept = []
+            for s2 in cur:
+                if len(s2.trace) > trace0 and any(e[0] in ('send', 'malloc-failed') for e in s2.trace[trace0:]):
+                    hm = self.head_memory(s2)
+                    if hm in head_mems and head_mems[hm] < it:
+                        if DEBUG: print("RETRY", it, self.fn, [e[0] for e in s2.trace[trace0:]], len(cur))
+                        self.oblige(False, 'retry-unbounded', s,
+                                    'the loop comes back to its head in exactly the state of an earlier iteration after the port refused a request: while the '
+                                    'port keeps refusing, nothing bounds the retries and the responder never returns to its receive loop')
+                        continue
+                    head_mems.setdefault(hm, it)
+                kept.append(s2)
+            cur = kept
+            if not cur:
+                break
             run = []
             if cond is not None and (cond_first or not first):
                 for s2 in cur:
